@@ -742,6 +742,11 @@ def _c05_wrap(kind, body):
         free = Func('m', [], VOID, [])
         tb = [Let('b', ST, StructLit(ST, {'V': Lit(1, I64)})), Return(MethodCall(Var('b', ST), 'm', [X, Y, Z], I64))]
         return fn3(tb, types=[ST], extra=[free, m])
+    if kind == 'pshadow':
+        # the body ends in a call of a USER function named like the builtin `panic` (it shadows the builtin and returns
+        # normally): that call does not end the path
+        free = Func('panic', [('m', I64)], VOID, [])
+        return fn3(body + [ExprStmt(Call('panic', [Lit(1, I64)], VOID))], extra=[free])
     if kind == 'lit':
         lf = Func('f', [('x', I64), ('y', I64), ('z', I64)], I64, body)
         tb = [FuncLitLet('f', lf), Return(Call('f', [X, Y, Z], I64))]
@@ -762,9 +767,11 @@ def c05(tier='quick', seed=0):
         sel = [s for s in shapes if s[0] in names1] + rnd.sample(rest, 400)
     meta = {'nonterm_ok': True}
     for name, f in sel:
-        kinds = ('fn', 'method', 'lit', 'mclash') if name in names1 else ('fn',)
+        kinds = ('fn', 'method', 'lit', 'mclash', 'pshadow') if name in names1 else ('fn',)
         for kind in kinds:
             for tail in (False, True):
+                if kind == 'pshadow' and tail:
+                    continue
                 c = Ctx()
                 body = f(c) + ([c.ret()] if tail else [])
                 tid = 'c05/%s/%s/%s' % (kind, name, 'tail' if tail else 'notail')
@@ -995,6 +1002,19 @@ def lang2():
         up = Func('up', [('n', ty), ('k', ty)], ty, [If(Cmp('>', Var('k', ty), Lit(0, ty)), [Assign(n, Bin('+', n, Var('k', ty)))]), Let('r', ty, n), OpAssign(n, '+', Lit(1, ty)), Return(Bin('+', Var('r', ty), n))])
         body = [Return(Cast(Call('up', [Cast(X, ty), Cast(Y, ty)], ty), I64))]
         out.append(Template('lang/param_reassigned/%s' % ty.name, fn2(body, extra=[up]), family='lang'))
+    # range loops: literal bounds, variable bounds, inclusive ranges, and bounds assigned inside the body (the bounds
+    # are evaluated once)
+    for ty in (I32, I64):
+        sv, cv, hv, lv_ = Var('s', ty), Var('c', ty), Var('hi', ty), Var('lo', ty)
+        body = [Let('s', ty, Cast(X, ty)), Let('z', ty, Lit(0, ty)), ForRange('i', ty, Lit(0, ty) if ty == I32 else Var('z', ty), Lit(4, ty), [Assign(sv, Bin('+', sv, Var('i', ty)))]), Return(Cast(sv, I64))]
+        out.append(Template('lang/range_literal/%s' % ty.name, fn1(body), family='lang', unroll=6))
+        body = [Let('s', ty, Lit(0, ty)), Let('hi', ty, Cast(X, ty)), ForRange('j', ty, Lit(1, ty), hv, [Assign(sv, Bin('+', sv, Var('j', ty)))], inclusive=True), Return(Cast(sv, I64))]
+        out.append(Template('lang/range_inclusive_var/%s' % ty.name, fn1(body), family='lang', unroll=6,
+                            pre=(lambda ty: lambda a: z3.And(narrow(a[0], ty) >= 0, narrow(a[0], ty) <= 3))(ty)))
+        body = [Let('c', ty, Lit(0, ty)), Let('lo', ty, Lit(0, ty)), Let('hi', ty, Lit(4, ty)),
+                ForRange('i', ty, lv_, hv, [Assign(hv, Bin('-', hv, Lit(1, ty))), Assign(lv_, Bin('+', lv_, Cast(X, ty))), Assign(cv, Bin('+', cv, Lit(1, ty)))]),
+                Return(Bin('+', Cast(cv, I64), Bin('+', Cast(hv, I64), Cast(lv_, I64))))]
+        out.append(Template('lang/range_bounds_assigned_in_body/%s' % ty.name, fn1(body), family='lang', unroll=6))
     # compound assignment whose right operand is a literal (typed i32 by default) or a narrower variable
     for ty in (I64, U64, I8, U16):
         v = Var('v', ty)
